@@ -18,7 +18,7 @@
 //!              now                              (simulated clock, ns)
 //!              fault clear                      (forget all fault rules)
 //!              hist <w>  (not available through the API; omitted)
-//!  * a scenario that does not finish within 20 s of wall time is reported as HANG.
+//!  * a scenario that does not finish within 120 s of wall time is reported as HANG.
 //!
 //! Original header of bin/sim.rs:
 //! One scenario per
@@ -769,7 +769,7 @@ fn main() {
         let pid = child.id();
         let (tx, rx) = std::sync::mpsc::channel::<()>();
         let wd = std::thread::spawn(move || {
-            if rx.recv_timeout(std::time::Duration::from_secs(20)).is_err() {
+            if rx.recv_timeout(std::time::Duration::from_secs(120)).is_err() {
                 let _ = std::process::Command::new("kill").arg("-9").arg(pid.to_string()).status();
                 true
             } else {
